@@ -157,6 +157,24 @@ pub fn set_injector(f: Option<Injector>) {
     *injector() = f;
 }
 
+type Observer = Box<dyn FnMut(usize, u32) + Send>;
+
+fn observer() -> MutexGuard<'static, Option<Observer>> {
+    static O: OnceLock<Mutex<Option<Observer>>> = OnceLock::new();
+    match O.get_or_init(|| Mutex::new(None)).lock() {
+        Ok(g) => g,
+        Err(e) => e.into_inner(),
+    }
+}
+
+/// Segment observer: `f(thread, point)` is called by a managed thread each time an entry is added
+/// to the execution log, i.e. after the previous segment (of whichever thread) ended and before
+/// the segment resumed from `point` runs. Drivers use it to attribute what they log (wake-ups,
+/// frees, consumed submissions) to the executed segment it happened in.
+pub fn set_observer(f: Option<Observer>) {
+    *observer() = f;
+}
+
 /// Hook B entry point (installed in the a10 verif table).
 pub fn yield_point(point: u32) {
     let Some(me) = TID.with(Cell::get) else {
@@ -196,6 +214,9 @@ pub fn yield_point(point: u32) {
     switch(st, me);
     // We hold the baton again: the segment after `point` runs now.
     lock().exec.push((me, point));
+    if let Some(f) = observer().as_mut() {
+        f(me, point);
+    }
 }
 
 /// What a blocking kernel wait with nothing to return does.
